@@ -252,12 +252,18 @@ def run_case(case, ctx):
     else:
         zin, regular, zs = z0_given, np.array([False]), np.array([z0])
     L = Limit(rec, **kw)
+    z_then = np.array(zin, copy=True) if isinstance(zin, np.ndarray) else None
     try:
         with np.errstate(all='ignore'):
             if case['use_limit_method'] and not size:
                 val, info = L.limit(zin)
             else:
                 val, info = L(zin)
+        if isinstance(zin, np.ndarray) and size:
+            ctx.count('callers_array_unchanged_asserted')
+            if np.ascontiguousarray(zin).tobytes() != np.ascontiguousarray(z_then).tobytes():
+                ctx.reject('callers_array_modified', observed=np.ravel(zin)[:6], expected=np.ravel(z_then)[:6], path=path, method=method)
+                return
     except Exception as exc:
         ctx.reject('limit_raised', observed='%s: %s' % (type(exc).__name__, str(exc)[:150]),
                    exc_type=type(exc).__name__, path=path, complex_z0=isinstance(z0, complex), kernel=kernel)
